@@ -313,14 +313,21 @@ class Regex(RegexReader):
                           productions=set(productions))
         return cfg_res
 
-    def _get_production(self, current_symbol, count=0):
+    def _get_production(self, current_symbol, count=0, start_symbol=None):
+        if start_symbol is None:
+            start_symbol = cfg.utils.to_variable(current_symbol)
         next_symbols = []
         next_productions = []
         for son in self.sons:
             next_symbol = "A" + str(count)
             count += 1
+            while start_symbol == next_symbol:
+                # The starting symbol is not available for a sub-expression
+                next_symbol = "A" + str(count)
+                count += 1
             # pylint: disable=protected-access
-            new_prods, count = son._get_production(next_symbol, count)
+            new_prods, count = son._get_production(next_symbol, count,
+                                                   start_symbol)
             next_symbols.append(next_symbol)
             next_productions += new_prods
         new_prods = self.head.get_cfg_rules(current_symbol, next_symbols)
